@@ -29,6 +29,9 @@ import time
 import traceback
 
 HOME = os.environ.get("VERIF_HOME", os.path.dirname(os.path.dirname(os.path.abspath(__file__))))
+# where evidence/ and replays/ are written: /verif itself, except for sensitivity runs against a
+# scratch copy of the repository (seeded/matrix.sh), which must not overwrite the real evidence
+OUT = os.environ.get("VERIF_OUT", HOME)
 
 MODULES = {
     "C01": "props.c01_sound",
@@ -243,8 +246,8 @@ def write_evidence(prop, tier, seed, level, coverage, assumptions, wall, violati
         "wall_s": round(wall, 2),
         "violations": violations,
     }
-    os.makedirs(os.path.join(HOME, "evidence"), exist_ok=True)
-    p = os.path.join(HOME, "evidence", f"{prop}.json")
+    os.makedirs(os.path.join(OUT, "evidence"), exist_ok=True)
+    p = os.path.join(OUT, "evidence", f"{prop}.json")
     tmp = p + ".tmp"
     with open(tmp, "w") as f:
         json.dump(ev, f, indent=1, default=str)
@@ -382,7 +385,7 @@ def _run_check(prop: str, tier: str, seed: int, replay_file: str | None = None, 
                 case = mod.shrink(case, same)
             except Exception:
                 out_lines.append("note: shrinking failed: " + traceback.format_exc(limit=2))
-        d = os.path.join(HOME, "replays", prop)
+        d = os.path.join(OUT, "replays", prop)
         os.makedirs(d, exist_ok=True)
         path = os.path.join(d, f"{jhash(bucket)}.json")
         with open(path, "w") as f:
